@@ -42,14 +42,27 @@ async def queue_view(
     pending_invocations = []
     queue_size = app.broker.count_invocations()
 
-    # Warning: This operation has overhead as we retrieve and re-queue messages
-    for _ in range(min(limit, queue_size)):
-        if invocation_id := app.broker.retrieve_invocation():
-            pending_invocations.append(app.state_backend.get_invocation(invocation_id))
-
-    for invocation in pending_invocations:
-        # Re-route the invocation back to the broker
-        app.broker.route_invocation(invocation.invocation_id)
+    # Warning: This operation has overhead as we retrieve and re-queue messages.
+    # The broker has no peek: the whole queue is taken and put back in the same order (taking
+    # only the first `limit` messages and appending them would rotate the queue), and the
+    # messages are put back whatever happens while the page is built.
+    retrieved_ids = []
+    try:
+        for _ in range(queue_size):
+            invocation_id = app.broker.retrieve_invocation()
+            if invocation_id is None:
+                break
+            retrieved_ids.append(invocation_id)
+        for invocation_id in retrieved_ids[: max(limit, 0)]:
+            try:
+                pending_invocations.append(
+                    app.state_backend.get_invocation(invocation_id)
+                )
+            except Exception as e:  # a queued id without a stored record must not break the page
+                app.logger.warning(f"queue view: cannot load invocation:{invocation_id}: {e}")
+    finally:
+        for invocation_id in retrieved_ids:
+            app.broker.route_invocation(invocation_id)
 
     return templates.TemplateResponse(
         request,
